@@ -258,6 +258,14 @@ public:
 	list(Allocator allocator = {})
 	: allocator_{std::move(allocator)} { }
 
+	list(const list &) = delete;
+	list &operator= (const list &) = delete;
+
+	~list() {
+		while(!empty())
+			pop_front();
+	}
+
 	template<typename... Args>
 	void emplace_back(Args &&... args) {
 		auto e = frg::construct<item>(allocator_, std::forward<Args>(args)...);
